@@ -455,8 +455,42 @@ def run(repo, rep):
                 probs.append('abstract syntax is %s' % norm(a[1]))
             if len(a) >= 3:
                 t = a[2]
-                okts = isinstance(t, (ast.ListComp, ast.GeneratorExp)) and norm(t.generators[0].iter) == '%s.supported_ts' % ctx \
+                from ..sym import inline_pure_calls as _ipc
+                try:
+                    t = ast.parse(_ipc(norm(t), repo, bp.module.name), mode='eval').body     # one-expression helpers in place
+                except SyntaxError:
+                    pass
+                src_ = t.generators[0].iter if isinstance(t, (ast.ListComp, ast.GeneratorExp)) else None
+                # the configured syntaxes in some order: sorted(..) / list(..) / tuple(..) / reversed(..) of them, each possibly
+                # wrapped in the identity uid.UID(..) by a comprehension, is still each configured syntax once
+                keys_ = []
+                while src_ is not None:
+                    if isinstance(src_, ast.Call) and isinstance(src_.func, ast.Name) and src_.func.id in ('sorted', 'list', 'tuple', 'reversed') \
+                            and len(src_.args) == 1 and all(k_.arg in ('key', 'reverse') for k_ in src_.keywords):
+                        keys_ += [k_.value for k_ in src_.keywords if k_.arg == 'key']
+                        src_ = src_.args[0]
+                    elif isinstance(src_, (ast.ListComp, ast.GeneratorExp)) and len(src_.generators) == 1 and not src_.generators[0].ifs \
+                            and norm(src_.elt) in (norm(src_.generators[0].target), 'uid.UID(%s)' % norm(src_.generators[0].target),
+                                                   'UID(%s)' % norm(src_.generators[0].target)):
+                        src_ = src_.generators[0].iter
+                    else:
+                        break
+                okts = isinstance(t, (ast.ListComp, ast.GeneratorExp)) and src_ is not None and norm(src_) == '%s.supported_ts' % ctx \
                     and norm(t.elt) == 'pdu.TransferSyntaxSubItem(%s)' % norm(t.generators[0].target)
+                for k_ in keys_:
+                    # ... provided the order is defined for every UID the entity may be configured with
+                    from ..pitfalls import pydicom_uid_raising_properties
+                    bad_ = pydicom_uid_raising_properties()
+                    if isinstance(k_, ast.Lambda) and len(k_.args.args) == 1:
+                        p_ = k_.args.args[0].arg
+                        for n_ in ast.walk(k_.body):
+                            if isinstance(n_, ast.Attribute) and isinstance(n_.value, ast.Name) and n_.value.id == p_ and n_.attr in bad_:
+                                probs.append('the proposed syntaxes are ordered by a key that reads UID.%s, which pydicom defines only for the '
+                                             'transfer syntaxes in its own dictionary (%s): for any other configured UID -- a private '
+                                             'transfer syntax -- it raises ValueError and no request can be built' % (n_.attr, bad_[n_.attr]))
+                    elif not (isinstance(k_, ast.Constant) and k_.value is None):
+                        rep.undecided('C11.Q2', '%s: the proposed transfer syntaxes are ordered by %s, a key function the rule cannot '
+                                      'show to be defined for every UID' % (bp.loc(), norm(k_)[:80]))
                 if not okts:
                     probs.append('transfer syntaxes are %s, not one sub-item per configured syntax' % norm(t))
         else:
